@@ -13,5 +13,5 @@ TinyConfigs == {<<1, 0>>, <<1, 1>>, <<1, 2>>, <<2, 2>>}
 (* message lengths: 0, 1, every residue of the padding multiples 2..8, the 1->2 byte and the
    2->3 byte and the 3->4 byte boundaries of the varint length
    prefix, and the 1 MiB wire limit *)
-AllLens == (0..17) \cup (125..130) \cup (16380..16386) \cup {1048576} \cup (2097150..2097153)
+AllLens == (0..17) \cup (125..130) \cup (16380..16386) \cup {1048576} \cup (2097151..2097152)
 =============================================================================
